@@ -15,8 +15,11 @@ VERIF = Path(__file__).resolve().parent.parent
 LEAN = VERIF / "lean"
 DRV = LEAN / ".lake" / "build" / "bin" / "tdfdrv"
 REPO = Path(os.environ.get("BASICTDF_REPO", "/repo"))
-EVID = VERIF / "evidence"
-REPLAYS = VERIF / "replays"
+# evaluation runs against another tree (BASICTDF_REPO=<worktree>) write their evidence/replays elsewhere (VERIF_OUT=<dir>);
+# the registered commands set neither: they judge /repo and write /verif/evidence
+OUT = Path(os.environ.get("VERIF_OUT", str(VERIF)))
+EVID = OUT / "evidence"
+REPLAYS = OUT / "replays"
 KNOWN = VERIF / "KNOWN_FINDINGS.json"
 ALLOWED_AXIOMS = {"propext", "Classical.choice", "Quot.sound"}
 FORBIDDEN = re.compile(r"\b(sorry|admit|native_decide|bv_decide|implemented_by|unsafe)\b|^\s*axiom\s|maxHeartbeats\s+0")
